@@ -84,6 +84,7 @@ func symxC18B() {
 	c.feed(stream)
 	c.feedEOF()
 	rt.Quiesce()
+	symxSweepNow(b) // whatever the stream left in flight times out (handshakes the client never completes)
 	rt.Assert(symxRoundTrip(p, "b"), "C18.other_clients_unaffected")
 	rt.Assert(b.local.Get("x1") == nil, "C18.stream_end_terminates_only_that_session")
 	b.cancel()
@@ -124,6 +125,7 @@ func symxC18C() {
 	c.feedEOF()
 	rt.Quiesce()
 	symxPoolRetryWait(2)
+	symxSweepNow(b) // handshakes the client never completes time out
 	rt.Assert(symxRoundTrip(p, "c"), "C18.other_clients_unaffected")
 	rt.Assert(b.local.Get("x1") == nil, "C18.stream_end_terminates_only_that_session")
 	b.cancel()
